@@ -63,6 +63,63 @@ CHECKS.update({
         design_ref="DESIGN.md 6 (C17)", note=EDIT_NOTE, technique=EDIT_TECH),
 })
 
+ISO_NOTE = TRUST + ("spec/SMGIso.tla (Isos = every structure-preserving bijection by exhaustive extension, DEq for descriptors) is the "
+                    "oracle; MC_IsoPairs checks reflexivity / symmetry / Sig-invariance of the oracle on every pair; families are bounded "
+                    "(graphs on <= 4 ids x {H,C}, reaction graphs on <= 3 ids, stereo templates up to 8 atoms); the two members of a pair "
+                    "get disjoint identifier sets and different insertion orders.")
+ISO_TECH = ("TLA+ brute-force isomorphism oracle (SMGIso) evaluated by TLC on enumerated case families (MC_IsoPairs); every pair replayed "
+            "on the real classes")
+CHECKS.update({
+    "C01": dict(category="model_checking",
+        text="For every pair for which TLC's exhaustive search finds a structure-preserving bijection (each family member against "
+             "itself under renaming to a disjoint id set, another insertion order and re-expressed descriptors, static or inside "
+             "stereo changes, with placeholders) ==, the reversed comparison and is_isomorphic must be True; includes empty graphs, "
+             "isolated atoms and disconnected graphs (all graphs on <= 4 ids). The edit-machine replay additionally compares every two "
+             "real objects that reach the same abstract state by different histories.",
+        design_ref="DESIGN.md 3.4, 6 (C01)", note=ISO_NOTE, technique=ISO_TECH),
+    "C02": dict(category="model_checking",
+        text="For every enumerated pair for which TLC's exhaustive search over all atom bijections finds NO witness (all pairs with "
+             "equal cheap invariants plus a sample of the rest: element / bond / role differences, enantiomers, diastereomers, E/Z, "
+             "lone-pair centres, formed-vs-broken) the real == must be False in both directions; all 12 ordered pairs of distinct "
+             "classes on identical content (empty and non-empty) must be unequal.",
+        design_ref="DESIGN.md 6 (C02)", note=ISO_NOTE, technique=ISO_TECH),
+    "C03": dict(category="model_checking",
+        text="Every pair TLC proves isomorphic must have equal hashes (renaming, insertion order, symmetry-equivalent orderings, "
+             "(ordering, parity) vs (mirrored ordering, -parity)); a sample of non-empty graphs of all four classes is hashed in fresh "
+             "interpreters under several PYTHONHASHSEED values and compared.",
+        design_ref="DESIGN.md 6 (C03)", note=ISO_NOTE, technique=ISO_TECH + "; subprocess hashing under different PYTHONHASHSEED"),
+    "C05": dict(category="model_checking",
+        text="For every enumerated pair of non-reaction families the list yielded by vf2pp_all_isomorphisms(stereo as the class "
+             "demands) is compared as a set with TLC's complete set of bijections (translated through the two identifier maps): no "
+             "invalid, missing or duplicate mapping; self pairs give the automorphism group.",
+        design_ref="DESIGN.md 6 (C05)", note=ISO_NOTE, technique=ISO_TECH),
+    "C06": dict(category="model_checking",
+        text="For every stereo family member TLC gives Enantiomer(g) and whether a bijection onto it exists; enantiomer() must project "
+             "to it key by key (atom, bond/axis, inside atom and bond stereo changes), leave the source untouched, be an involution, "
+             "and g == g.enantiomer() must hold exactly for the achiral/meso members. The edit machine (profiles X3/X4) derives "
+             "enantiomers from every state within the depth bound and follows up with edits on either side.",
+        design_ref="DESIGN.md 6 (C06)", note=ISO_NOTE, technique=ISO_TECH + "; edit machine (MC_Edit) + Trace_Edit"),
+    "C16": dict(category="model_checking",
+        text="All enumerated pairs whose (element, neighbour elements) multisets differ - reactant-, product- or TS-wise for reaction "
+             "graphs - and all pairs that TLC certifies to be the two stereoisomers of a single stereogenic unit with element-distinct "
+             "ligands must have different hashes. A listed known finding (E/Z PlanarBond pairs) is reported as KNOWN-FINDING.",
+        design_ref="DESIGN.md 6 (C16)", note=ISO_NOTE, technique=ISO_TECH),
+    "C15": dict(category="model_checking",
+        text="json_deserialize(json_serialize(g)) is a derivation of the edit machine: from every state within the depth bound of the "
+             "seed graphs of all four classes (all roles incl. fleeting, every menu descriptor, parity None, placeholders, every "
+             "change combination, ids negative and > 2^33) the result must project to the same graph (attributes may be dropped), "
+             "have the same class, compare equal and have the same hash; random graphs of 10-30 atoms are validated by TLC.",
+        design_ref="DESIGN.md 6 (C15)", note=EDIT_NOTE, technique=EDIT_TECH),
+    "C08": dict(category="model_checking",
+        text="MC_React enumerates (reactant, product, optional TS) triples (3 variable bonds x 5 states, centre descriptor chosen "
+             "independently in r/ts/p from 7 choices incl. class changes and placeholders; ethene bond x 6 bond descriptors); each is "
+             "run through from_graphs, reactant, product, reverse_reaction (twice) as stereo and plain reaction graph and Obs_React "
+             "(TLC) evaluates the contract clause by clause. reactant/product/reverse are also derivations of the edit machine.",
+        design_ref="DESIGN.md 3.4, 6 (C08)", note=TRUST + "contract of from_graphs stated on observable behaviour (spec/Obs_React.tla).",
+        technique="TLC-enumerated reaction triples replayed on the real classes; recorded results validated by TLC against the contract "
+                  "(Obs_React); edit machine + Trace_Edit for reactant/product/reverse"),
+})
+
 PENDING_REASON = "check not built yet in this round; planned with the TLA+ technique as described in DESIGN.md section 6"
 
 
